@@ -469,6 +469,42 @@ def stress(chk, ctx, drv, variant, scen_list, timeout, env=None):
     return n_builds
 
 
+def hunt(chk, ctx, drv, nproc, nbuilds, width, budget_s):
+    """Lost wake-up hunt: `nproc` driver processes in parallel, each running `nbuilds` full builds of a fan of `width` leaves whose
+    completions race from threads.  The engine enters its wait block after every completion it has processed; a completion that slips
+    between an unprotected emptiness check and the wait is lost, and if it was the last one build() never returns: a process that does
+    not finish within the budget is a hang."""
+    from concurrent.futures import ThreadPoolExecutor
+    jobs = []
+    for i in range(nproc):
+        seed0 = chk.rng.randrange(1 << 20)
+        lines = fan_scenario(width, nbuilds, lambda b: " sched=threads:%d" % (seed0 + b))
+        jobs.append((i, lines))
+
+    def one(job):
+        i, lines = job
+        return run_variant(drv, lines, os.path.join(ctx["root"], "hunt-%d" % i), "scenario", timeout=budget_s)
+    t0 = time.time()
+    with ThreadPoolExecutor(max_workers=nproc) as ex:
+        res = list(ex.map(one, jobs))
+    done = 0
+    for (i, lines), r in zip(jobs, res):
+        fin = sum(1 for l in r["out"] if l.startswith("result "))
+        done += fin
+        chk.count(("hunt", i), n=max(1, fin))
+        if r["rc"] == -9 and fin < nbuilds:
+            # distinguish a slow machine from a hang: a hung driver stops printing results
+            chk.violation("engine-hang", "build() did not return in a fan of %d racing completions: %d of %d builds had finished when the driver was killed after %ds (a lost wake-up needs a completion inside a window of tens of nanoseconds; it shows about once in 2*10^4 such builds when the emptiness check is made outside the mutex)" % (width, fin, nbuilds, budget_s),
+                          dict(scenario=lines, variant="hooks", builds_finished=fin, note="rare by nature: replay repeats the scenario 20 times"), found_input=True,
+                          broken="c06 oracle (build returns) on implementation")
+        elif r["rc"] != 0:
+            chk.violation("engine-crash", "the engine driver crashed (rc=%s) in the racing fan" % r["rc"], dict(scenario=lines, stderr=r["err"][-2000:]), found_input=True,
+                          broken="c06 oracle (no crash) on implementation")
+        elif any(l.startswith(("LATE-CALLBACK", "leftover")) for l in r["out"]):
+            chk.violation("late-callback", "a callback outside build() in the racing fan", dict(scenario=lines), found_input=True, broken="c06 oracle (no late callback)")
+    return done, round(time.time() - t0, 1)
+
+
 def thread_scenarios(chk, rng, quick_n, thorough_n, with_cancel=True):
     """Scenario lines of the racing-thread stress (shared by the plain and the TSan runs)."""
     out = []
@@ -491,7 +527,8 @@ def thread_scenarios(chk, rng, quick_n, thorough_n, with_cancel=True):
             for l in base:
                 if l.startswith("build "):
                     c = (" cancel=thread:%d" % rng.choice([0, 0, 20, 100, 300, 700, 1500, 3000])) if rng.random() < 0.6 else ""
-                    L.append(strip_opts(l) + " sched=threads:%d" % (seed0 + bi) + c); bi += 1
+                    kind = rng.choice(["threads"] * 5 + ["defer", "mixed"])
+                    L.append(strip_opts(l) + " sched=%s:%d" % (kind, seed0 + bi) + c); bi += 1
                 else:
                     L.append(l)
             out.append(("cancel%d" % i, L))
@@ -532,7 +569,7 @@ def run(chk):
 
     # ---- (b)+(c) generated histories under every schedule
     t0 = time.time()
-    nh = chk.n(14, 120)
+    nh = chk.n(24, 150)
     for h in range(nh):
         ctx["hid"] = "g%d" % h
         base = [strip_opts(l) for l in enginelib.gen_history(rng, nops=(3, 9))]
@@ -550,7 +587,7 @@ def run(chk):
 
     # ---- small graphs: enumerate many distinct completion orders
     t0 = time.time()
-    ns = chk.n(6, 40)
+    ns = chk.n(8, 40)
     cap = chk.n(24, 120)
     small_stats = []
     for h in range(ns):
@@ -585,7 +622,7 @@ def run(chk):
 
     # ---- (d) racing threads: lost wake-up / deadlock, cancellation from a foreign thread
     t0 = time.time()
-    scen = thread_scenarios(chk, rng, 6, 60)
+    scen = thread_scenarios(chk, rng, 8, 60)
     scen_ref = []
     for name, lines in scen:
         sync_lines = None
@@ -596,6 +633,10 @@ def run(chk):
     nstress = stress(chk, ctx, drv, "hooks", scen_ref, timeout=chk.n(40, 120))
     chk.sample(dict(kind="racing-thread stress scenario", name=scen[0][0], scenario=scen[0][1][:8] + ["..."]))
     t_stress = time.time() - t0
+    hunt_builds, t_hunt = (0, 0.0)
+    if not ctx.get("hang"):
+        np_ = max(2, min(8, vlib.NCPU // 2))
+        hunt_builds, t_hunt = hunt(chk, ctx, drv, chk.n(min(4, np_), np_), chk.n(1000, 6000), 24, chk.n(60, 400))
 
     # ---- (e) ThreadSanitizer (thorough tier)
     tsan_builds = 0
@@ -625,7 +666,7 @@ def run(chk):
     chk.cov.update(dict(histories=nh, small_graphs=ns, small_graph_orders=small_stats[:10], distinct_completion_orders=len(ctx["orders"]),
                         task_sequences_through_extracted_automaton=ctx["proto_checked"], builds_replayed_on_handshake_model=ctx["hs_checked"],
                         spec_model_runs=ctx["model_runs"], spec_model_disagreements=len(ctx["model_disagreements"]),
-                        stress_builds=nstress, tsan_builds=tsan_builds, seconds=dict(histories=round(t_gen, 1), small=round(t_small, 1), stress=round(t_stress, 1))))
+                        stress_builds=nstress, hunt_builds=hunt_builds, tsan_builds=tsan_builds, seconds=dict(histories=round(t_gen, 1), small=round(t_small, 1), stress=round(t_stress, 1), hunt=t_hunt)))
     chk.notes["partial"] = ("PARTIAL - data races are sampled under ThreadSanitizer (thorough tier), not proved; the handshake logic (any number of completer "
                             "threads, any interleaving) and the protocol automaton are proved; schedule independence of values is sampled on the implementation "
                             "and tied to the specification engine by the differential")
